@@ -366,6 +366,33 @@ fn main() {
         distinct.merge(w.distinct);
         overflow += w.log_overflow;
     }
+    // (a'') the second alphabet (the other representative of every byte class), one token shorter
+    let lex3_len = args.get_usize("lex3", if thorough { 6 } else { 5 });
+    let lw3 = vec![Wk::Heapless(8), Wk::Rec(usize::MAX)];
+    let lw3c = lw3.clone();
+    let ws = lex::sweep(
+        lex::SIGMA_ALT,
+        lex3_len,
+        args.threads,
+        args.seed,
+        || LexW { writers: lw3c.clone(), groups: Groups::new(), execs: 0, cases: 0, distinct: Distinct::default(), log_overflow: 0 },
+        |_, _, _| {},
+        20,
+        |p, k| {
+            let x = lex::case_of(lex::SIGMA_ALT, lex3_len, p, k);
+            println!("HANG engine=run input=\"{}\" hex={} (no progress for 20 s)", show(&x), hex(&x));
+            std::process::exit(3);
+        },
+    );
+    let mut lex3_execs = 0u64;
+    let mut lex3_cases = 0u64;
+    for w in ws {
+        out.groups.merge(w.groups);
+        lex3_execs += w.execs;
+        lex3_cases += w.cases;
+        distinct.merge(w.distinct);
+        overflow += w.log_overflow;
+    }
     let t_lex2 = t0.elapsed().as_secs_f64();
 
     // (b) CAP: messages of <=3 units x capacity 0..=64 (recorder) + shipped heapless sizes
@@ -505,8 +532,8 @@ fn main() {
     if cfg!(microscpi_verif) && hook_calls == 0 {
         out.machinery_errors.push("hook was never called".into());
     }
-    let total = lex_execs + lex2_execs + cap_execs + many_execs + env_execs;
-    out.cov("states", lex_cases + msgs.len() as u64 + env_streams);
+    let total = lex_execs + lex2_execs + lex3_execs + cap_execs + many_execs + env_execs;
+    out.cov("states", lex_cases + lex3_cases + msgs.len() as u64 + env_streams);
     out.cov("transitions", total);
     out.cov("traces_validated_against_impl", total);
     out.cov("evaluations", total);
@@ -525,6 +552,7 @@ fn main() {
             "alphabet": lex::sigma_json(),
             "lex_run": {"max_tokens": lex_len, "writers": lex_writers.iter().map(|w| w.json()).collect::<Vec<_>>(), "strings": lex_cases, "executions": lex_execs},
             "lex_run_other_writers": {"max_tokens": lex2_len, "writers": writers2.iter().map(|w| w.json()).collect::<Vec<_>>(), "executions": lex2_execs},
+            "lex_run_second_alphabet": {"alphabet": lex::sigma_alt_json(), "max_tokens": lex3_len, "writers": lw3.iter().map(|w| w.json()).collect::<Vec<_>>(), "strings": lex3_cases, "executions": lex3_execs},
             "many_parameters": {"headers": 8, "literal_kinds": 6, "parameters": "0..=16", "executions": many_execs},
             "capacity_sweep": {"messages": msgs.len(), "capacities": "recorder 0..=64, heapless {0,1,2,8,9,16,41,64}", "executions": cap_execs},
             "process": {"N_for_pool_streams": ns_pool, "N_for_token_streams": ns_lex, "pool_messages": POOL.len(),
